@@ -10,7 +10,7 @@ Extraction "model.ml"
   run_ext5frob run_ext2sq run_ext4sq run_ext5sq run_const_w run_const_dth run_padd run_psub run_pmul run_pneg run_psquare run_pinterleave_involution
   run_prog run_dedup run_plonkverify run_challenges
   run_cap run_prove run_proveall run_verify run_compress run_decompress run_bcap run_bopen run_bopenall run_bverify run_hashleaf run_twoto1
-  run_poseidon run_poseidon_naive run_poseidon_raw run_poseidon_spec run_poseidon_fast run_mds_layer run_partial_rounds run_hash_no_pad run_hash_n_to_m run_two_to_one run_hash_or_noop run_hash_pad run_challenger run_rchallenger run_challenger_x
+  run_poseidon run_poseidon_naive run_poseidon_raw run_poseidon_spec run_poseidon_fast run_mds_layer run_partial_rounds run_mds_partial_fast run_hash_no_pad run_hash_n_to_m run_two_to_one run_hash_or_noop run_hash_pad run_challenger run_rchallenger run_challenger_x
   run_revbits run_revidx run_revidx_inplace run_transpose run_roottable run_fft run_fft_r run_fftx run_ifft run_ifft_r run_ifftx run_coset_fft run_coset_fft_r run_coset_ifft run_lde run_lde_coset run_clde run_prou run_two_adic_subgroup run_eval run_evalpow run_polyadd run_polysub run_polymul run_scalarmul run_trim run_trimlen run_padded run_degp1 run_lead run_divlin run_divrem run_divremlong run_invmodxn run_interp run_baryw run_interpolate run_interp2 run_zpoc run_zpoc_l0 run_cosetshifts
   run_friverify run_batchfriverify run_fricompress run_fridecompress run_friinferred
   run_enc_u8 run_enc_u32 run_enc_usize run_enc_bool run_enc_field run_enc_ext run_enc_hash run_enc_cap
